@@ -27,4 +27,5 @@ func Run(c *core.Ctx, pool *gjs.Pool) {
 			Modes: []minigo.Mode{{Name: "minified-plain", Minify: true}, {Name: "minified-resumable", Flat: true, Minify: true, Masks: c.Pick(2, 8)}}})
 	}
 	runDirect(c)
+	runWitnesses(c, pool)
 }
